@@ -56,7 +56,7 @@ PROPS["C07"] = {
                   "as a use, a successful lookup counts as a use, a new key gets count 1, and when a new key is stored into a full cache the "
                   "single key removed is the list head, whose count is minimal by the invariant. _inc_freq's loop invariant shows the moved "
                   "node lands behind exactly the entries with a smaller count. Stdlib mixins and view iterators as for C06.",
-    "level_note": "Trusted: pyvc, z3, dict semantics. MutableMapping.update and Mapping.__eq__ are covered by the bounded layer only.",
+    "level_note": "Trusted: pyvc, z3, dict semantics. Mapping.__eq__ is covered by the bounded layer only; MutableMapping.update as for C06.",
 }
 PROPS["C09"] = {
     "units": ["contracts.c09_sorted", "contracts.c09_sorted:unit_map", "contracts.c09_sorted:unit_map_pairs",
